@@ -69,6 +69,8 @@ func (m *M) scalarPair() (string, string, *big.Int, *big.Int) {
 
 // genC06: ring operations over operand classes, with every aliasing.
 func genC06(m *M, budget int) {
+	m.corpusScalar("C06")
+	budget += m.events
 	for m.events < budget {
 		m.reset()
 		for i := 0; i < 8; i++ {
@@ -142,6 +144,8 @@ func genC06(m *M, budget int) {
 
 // genC07: scalar codec.
 func genC07(m *M, budget int) {
+	m.corpusScalar("C07")
+	budget += m.events
 	for m.events < budget {
 		m.reset()
 		m.calibrateScalarErrors()
@@ -239,6 +243,8 @@ func genC07(m *M, budget int) {
 
 // genC13: comparisons and conditional selection.
 func genC13(m *M, budget int) {
+	m.corpusScalar("C13")
+	budget += m.events
 	conds := []uint64{0, 1, 2, 3, 1 << 32, 1 << 63, ^uint64(0), 0xfffffffffffffffe, 1 << 1, 1 << 8,
 		// relations between the two 32-bit halves / the four 16-bit quarters (folding and truncation slips)
 		0x8000000080000000, 0xffffffff00000001, 0x00000001ffffffff, 0x0000000100000001, 0xffffffffffff0000, 0x0001000000000000,
@@ -310,6 +316,8 @@ func genC13(m *M, budget int) {
 
 // genC14: bit expansion.
 func genC14(m *M, budget int) {
+	m.corpusScalar("C14")
+	budget += m.events
 	i := 0
 	for m.events < budget {
 		m.reset()
